@@ -42,6 +42,9 @@ Proof. induction l as [|y l IH]; intros []; cbn [map sum_N]; [subst; lia | speci
 Lemma nlen_pos (b : bytes) : b <> [] -> 1 <= nlen b.
 Proof. destruct b; [congruence | intros _; unfold nlen; cbn [length]; lia]. Qed.
 
+Lemma sum_N_app l1 l2 : sum_N (l1 ++ l2) = sum_N l1 + sum_N l2.
+Proof. induction l1 as [|x l1 IH]; cbn [app sum_N]; [reflexivity | rewrite IH; lia]. Qed.
+
 Section Trans.
   Variable crc : bytes -> N.
   Variable compress : bytes -> bytes.
@@ -133,7 +136,8 @@ Section Trans.
     exists rss', srep (snd (store_put crc compress s a d)) rss'
       /\ (forall h, smem (snd (store_put crc compress s a d)) rss' h
                     = (match fst (store_put crc compress s a d) with PutOk => addr_eqb a h | _ => false end) || smem s rss h)
-      /\ (forall h, mt_in (mtc (snd (store_put crc compress s a d))) h = true -> h = a \/ mt_in (mtc s) h = true).
+      /\ (forall h, mt_in (mtc (snd (store_put crc compress s a d))) h = true ->
+            (fst (store_put crc compress s a d) = PutOk /\ h = a) \/ mt_in (mtc s) h = true).
   Proof.
     intros R Ed Wa. destruct R as [Rm Rt Rz].
     set (mt := match s_mem s with Some m => m | None => mt_empty end).
@@ -179,7 +183,7 @@ Section Trans.
                    --- intros h. unfold smem, mtc. cbn [s_mem mt_chunks]. rewrite Hm, ?Emtc, ?Emtc'. unfold mt_in at 1. cbn [assoc].
                        destruct (addr_eqb a h); cbn [is_some orb]; reflexivity.
                    --- intros h H. unfold mtc in H. cbn [s_mem mt_chunks] in H. unfold mt_in in H. cbn [assoc] in H.
-                       destruct (addr_eqb a h) eqn:E; [left; symmetry; apply addr_eqb_spec; exact E | discriminate].
+                       destruct (addr_eqb a h) eqn:E; [left; split; [reflexivity | symmetry; apply addr_eqb_spec; exact E] | discriminate].
         * (* chunkAdded *)
           apply N.ltb_ge in Efit. destruct Hmt as ((ND & CO) & Tot & Le).
           cbn [fst snd]. exists rss. split.
@@ -187,16 +191,16 @@ Section Trans.
              split; [split|].
              ++ cbn [mt_chunks]. rewrite map_app. apply NoDup_app_intro; [exact ND | repeat constructor; intros [] |].
                 intros x Hx [<- | []]. exact (assoc_none _ _ A Hx).
-             ++ cbn [mt_chunks]. apply Forall_app. split; [exact CO|]. repeat constructor; try assumption. rewrite Ed. reflexivity.
+             ++ cbn [mt_chunks]. apply Forall_app. split; [exact CO|]. apply Forall_cons; [|apply Forall_nil]. cbn [fst snd]. repeat split; [exact Ed | exact Hne | apply Wa | apply Wa].
              ++ cbn [mt_chunks mt_total]. rewrite map_app. split; [|lia].
-                rewrite Tot. clear. induction (map (fun c : addr * bytes => nlen (snd c)) (mt_chunks mt)) as [|x l IH]; cbn [app sum_N map snd]; [lia|]. rewrite <- IH. lia.
+                rewrite sum_N_app. cbn [map sum_N snd]. rewrite N.add_0_r. f_equal. exact Tot.
           -- split.
              ++ intros h. unfold smem, mtc. cbn [s_mem mt_chunks]. rewrite ?Emtc, ?Emtc'. unfold mt_in. rewrite assoc_app. cbn [assoc].
                 destruct (assoc (mt_chunks mt) h); cbn [is_some orb]; [rewrite orb_true_r; reflexivity|].
                 destruct (addr_eqb a h); reflexivity.
              ++ intros h H. unfold mtc in H. cbn [s_mem mt_chunks] in H. unfold mt_in in H. rewrite assoc_app in H. cbn [assoc] in H.
                 rewrite ?Emtc, ?Emtc'. unfold mt_in. destruct (assoc (mt_chunks mt) h); [right; reflexivity|].
-                destruct (addr_eqb a h) eqn:E; [left; symmetry; apply addr_eqb_spec; exact E | discriminate].
+                destruct (addr_eqb a h) eqn:E; [left; split; [reflexivity | symmetry; apply addr_eqb_spec; exact E] | discriminate].
   Qed.
 
   (* Commit(root, root) *)
@@ -210,21 +214,21 @@ Section Trans.
     destruct (s_mem s) as [mt|] eqn:Em.
     - destruct (mt_chunks mt) as [|c0 cs0] eqn:Ech.
       + cbn [fst snd]. split; [reflexivity|]. exists rss. split; [|split].
-        * constructor; cbn [s_mem s_novel s_up s_memsz app]; [rewrite Em; exact Rm | exact Rt | first [exact Rz | reflexivity]].
+        * constructor; cbn [s_mem s_novel s_up s_memsz app]; [first [exact Rm | rewrite Em in Rm; exact Rm] | first [exact Rt | rewrite En in Rt; exact Rt] | first [exact Rz | reflexivity]].
         * intros h. unfold smem, mtc. cbn [s_mem]. rewrite Em. reflexivity.
         * intros h. unfold mtc. cbn [s_mem]. rewrite Ech. reflexivity.
-      + rewrite <- Ech. destruct (append_spec (s_novel s) (s_up s) rss mt Rt Rm) as (novel' & rss' & Ea & Ft & Hm).
+      + try rewrite <- Ech. destruct (append_spec (s_novel s) (s_up s) rss mt Rt Rm) as (novel' & rss' & Ea & Ft & Hm).
         rewrite Ea. cbn [fst snd]. split; [reflexivity|]. exists rss'. split; [|split].
         * constructor; cbn [s_mem s_novel s_up s_memsz app]; [exact I | exact Ft | first [exact Rz | reflexivity]].
         * intros h. unfold smem, mtc. cbn [s_mem]. rewrite Em, Hm. reflexivity.
         * intros h. reflexivity.
     - destruct (s_novel s) as [|t0 n0] eqn:En.
       + cbn [fst snd]. split; [reflexivity|]. exists rss. split; [|split].
-        * constructor; [rewrite Em; exact I | rewrite En; exact Rt | first [exact Rz | reflexivity]].
+        * constructor; [rewrite ?Em; exact I | rewrite ?En; rewrite ?En in Rt; exact Rt | exact Rz].
         * intros h. reflexivity.
         * intros h. unfold mtc. rewrite Em. reflexivity.
       + cbn [fst snd]. split; [reflexivity|]. exists rss. split; [|split].
-        * constructor; cbn [s_mem s_novel s_up s_memsz app]; [exact I | exact Rt | first [exact Rz | reflexivity]].
+        * constructor; cbn [s_mem s_novel s_up s_memsz app]; [exact I | first [exact Rt | rewrite En in Rt; exact Rt] | first [exact Rz | reflexivity]].
         * intros h. unfold smem, mtc. cbn [s_mem]. rewrite Em. reflexivity.
         * intros h. reflexivity.
   Qed.
